@@ -30,6 +30,13 @@ def zone_raws(mn, mx):
         gn = [v for v in range(mn, mx + 1) if 0.49 <= -((v / mx) * 2 - 1) < 0.5][:3] if span <= 70000 else []
     z["Gap+"] = g[:3]
     z["Gap-"] = gn[:3]
+    # positions hugging the thresholds 0.49 and 0.5 from both sides (they tie the model's zone constants to the code's literals)
+    span = mx - mn
+    for frac in (0.4849, 0.4875, 0.4899, 0.4901, 0.4999, 0.5001):
+        for sgn in (1, -1):
+            raw = int(sgn * frac * (mx if sgn > 0 else -mn)) if mn < 0 else int(mn + span * (0.5 + sgn * frac / 2))
+            if mn <= raw <= mx:
+                z["Mid" if frac < 0.49 else ("Pos" if sgn > 0 else "Neg") if frac >= 0.5 else ("Gap+" if sgn > 0 else "Gap-")].append(raw)
     return z
 
 
